@@ -128,7 +128,7 @@ def run_job(job, rep):
             rep.obligations += 1; rep.discharged += 1
             rep.sample(dict(job=job["name"], witness=case, delivered=len(rec)), limit=1)
 
-        _, st = core.explore(run, on_path=judge, stop=rep.enough, timeout=600, path_timeout=8)
+        _, st = core.explore(run, on_path=judge, stop=rep.enough, timeout=600, path_timeout=25)
         rep.add_stats(st)
         return
 
@@ -171,7 +171,7 @@ def run_job(job, rep):
             rep.ob(st, "chunking-changes-delivery", case, "delivered frames or buffer differ between chunkings")
             rep.sample(dict(job=job["name"], witness=case, delivered=len(rec1)), limit=1)
 
-        _, st = core.explore(run, on_path=judge, stop=rep.enough, timeout=600, path_timeout=8)
+        _, st = core.explore(run, on_path=judge, stop=rep.enough, timeout=600, path_timeout=25)
         rep.add_stats(st)
         return
 
@@ -215,7 +215,7 @@ def run_job(job, rep):
         rep.ob(st, "delivered-frames-differ", case if mm is None else dict(kind="oracle", chunks=[raw.concrete(mm).hex()], buffer="", lens=lens), "delivered frames differ from the sequential reference")
         rep.sample(dict(job=job["name"], witness=case, expected=len(exp)), limit=1)
 
-    _, st = core.explore(run, on_path=judge, stop=rep.enough, timeout=600, path_timeout=8)
+    _, st = core.explore(run, on_path=judge, stop=rep.enough, timeout=600, path_timeout=25)
     rep.add_stats(st)
 
 
